@@ -47,6 +47,19 @@ def bmStr (bm : Bitmap) : String :=
   let ps := " ".intercalate (bm.pools.map poolStr)
   (s!"{bm.total} {bm.reserved} {bm.pools.length} {ps}").trimAscii.toString
 
+/-- free frames according to a pool dump `start end free nwords w…` repeated `npools` times (the
+implementation's own bitmap, bit `63 - i%64` of word `i/64`) -/
+def dumpFree : Nat → List Nat → List Nat
+  | 0, _ => []
+  | n+1, start :: end_ :: _ :: nw :: rest =>
+    let ws := rest.take nw
+    let fr := (List.range (end_ + 1 - start)).filter fun i =>
+      !(BitVec.ofNat 64 (ws.getD (i / 64) 0)).getLsbD (63 - i % 64)
+    fr.map (start + ·) ++ dumpFree n (rest.drop nw)
+  | _, _ => []
+
+def sortNat (l : List Nat) : List Nat := (l.toArray.qsort (· < ·)).toList
+
 def optFrame : Option Nat → String
   | some f => toString f
   | none => "-1"
@@ -130,6 +143,16 @@ def step (st : St) (opS obsS : String) : St × String := Id.run do
           if nat! total ≠ av then st := fail st "C03" "init-total-is-available-ram" opS obsS
           if nat! total - nat! reserved ≠ us ∨ nat! reserved > nat! total then
             st := fail st "C03" "init-free-count-is-usable" opS obsS
+          -- the frames left free by the hand-over are exactly the usable ones: every early
+          -- allocation (and every kernel frame) was recovered and marked reserved, nothing else
+          match (obs.takeWhile (· ≠ "m")).map nat! with
+          | _ :: _ :: _ :: _ :: _ :: np :: pools =>
+            let freeImpl := sortNat (dumpFree np pools)
+            if freeImpl ≠ sortNat (usable st) then
+              st := fail st "C02" "handover-recovers-early-frames" opS obsS
+              st := fail st "C03" "init-free-set-is-usable" opS obsS
+              st := fail st "C01" "init-free-set-is-usable" opS obsS
+          | _ => pure ()
         | _ => st := fail st "C03" "bad-line" opS obsS
     | _ => st := fail st "C03" "bad-line" opS obsS
     let implModelCmp := if r.outcome = .ok then
